@@ -21,6 +21,10 @@ import XotModel.Lemmas.FspecReplFrame3
 import XotModel.Lemmas.FspecClone
 import XotModel.Lemmas.FspecMapUpd3
 import XotModel.Lemmas.FspecSet2
+import XotModel.Lemmas.FspecPairRemove
+import XotModel.Lemmas.FspecPairAppend4
+import XotModel.Lemmas.FspecPairAfter3
+import XotModel.Lemmas.FspecPairBefore4
 
 namespace XotModel.Props
 open XotModel XotModel.Spec
@@ -611,11 +615,77 @@ example :
 
   Outside `Forest.Normal` the specification of `FspecSpec.lean` (merge the maximal runs) is not
   what xot does: xot merges exactly the pair that becomes adjacent.  `Model/FspecSpec3.lean` has
-  that PAIR reading (`specMoveP`, `specRemoveP`, `specDetachP`); the suite `fspec` compares it with
-  the real crate and with the model on every successful move / remove / detach, also on forests
-  with adjacent text (all small forests exhaustively): they agree everywhere except in ONE corner
-  (`Spec.selfMerge`), where the real code loses character data — a recorded finding
-  (`C05:move-changes-character-data`).  The pair reading is not yet proved as a theorem. -/
+  that PAIR reading of "text nodes that become adjacent are merged" (`specMoveP`, `specRemoveP`,
+  `specDetachP`: the two neighbours a leaving node separated, the earlier surviving; the moved text
+  node with its new left neighbour if that is text, else with its new right one, the neighbour
+  surviving).  Below it is proved for EVERY forest with `Forest.Inv` — no `Forest.Normal` — for
+  `remove`, `detach`, `prepend`, `insert_after`, and for `append` / `insert_before` outside ONE
+  corner (`Spec.selfMerge`), in which the real code loses character data: a recorded finding
+  (`C05:move-changes-character-data`), with the deviation proved (`C05_selfMerge_*`, closed
+  witness).  `element_unwrap`, `element_wrap` and `replace` are proved under `Forest.Normal` only. -/
+
+theorem C05_pair_remove {f : Forest} {n : Nat} (inv : f.Inv) (live : f.isLive n = true) :
+    (f.remove n).1 = specRemoveP n f :=
+  remove_pair inv live
+
+theorem C05_pair_detach {f : Forest} {n : Nat} (inv : f.Inv) (live : f.isLive n = true) :
+    (f.detach n).1 = specDetachP n f :=
+  detach_pair inv live
+
+theorem C05_pair_prepend {f : Forest} {p c : Nat} (inv : f.Inv) (hok : (f.prepend p c).2 = .ok) :
+    (f.prepend p c).1 = specMoveP (.firstNormalChildOf p) c f :=
+  prepend_pair inv hok
+
+theorem C05_pair_insertAfter {f : Forest} {r c : Nat} (inv : f.Inv) (hok : (f.insertAfter r c).2 = .ok) :
+    (f.insertAfter r c).1 = specMoveP (.after r) c f :=
+  insertAfter_pair inv hok
+
+/-- The full-strength statements for `append` and `insert_before` (false of the code, see below). -/
+def C05_pair_appendStatement : Prop :=
+  ∀ (f : Forest) (p c : Nat), f.Inv → (f.append p c).2 = .ok → (f.append p c).1 = specMoveP (.lastChildOf p) c f
+def C05_pair_insertBeforeStatement : Prop :=
+  ∀ (f : Forest) (r c : Nat), f.Inv → (f.insertBefore r c).2 = .ok →
+    (f.insertBefore r c).1 = specMoveP (.before r) c f
+
+/-- `append` / `insert_before` outside the corner `selfMerge` (a decidable condition on the forest
+    before the call: the moved TEXT node stands between two text nodes and, once those are merged,
+    already occupies the requested place). -/
+theorem C05_pair_append_partial {f : Forest} {p c : Nat} (inv : f.Inv) (hok : (f.append p c).2 = .ok)
+    (hsm : selfMerge f (.lastChildOf p) c = false) :
+    (f.append p c).1 = specMoveP (.lastChildOf p) c f :=
+  append_pair inv hok hsm
+
+theorem C05_pair_insertBefore_partial {f : Forest} {r c : Nat} (inv : f.Inv)
+    (hok : (f.insertBefore r c).2 = .ok) (hsm : selfMerge f (.before r) c = false) :
+    (f.insertBefore r c).1 = specMoveP (.before r) c f :=
+  insertBefore_pair inv hok hsm
+
+/-- In the corner the call succeeds and DESTROYS the moved text node (its data is lost). -/
+theorem C05_selfMerge_append {f : Forest} {p c : Nat} (inv : f.Inv)
+    (h : selfMerge f (.lastChildOf p) c = true) :
+    (f.append p c).2 = .ok ∧ (f.append p c).1.isLive c = false :=
+  append_selfMerge inv h
+
+theorem C05_selfMerge_insertBefore {f : Forest} {r c : Nat} (inv : f.Inv)
+    (h : selfMerge f (.before r) c = true) :
+    (f.insertBefore r c).2 = .ok ∧ (f.insertBefore r c).1.isLive c = false :=
+  insertBefore_selfMerge inv h
+
+/-- Non-vacuity: a forest with adjacent text nodes on which the pair reading differs from the
+    whole-run reading (`remove` of the element in `w x <b/> y z`: only `x`, `y` are merged). -/
+example :
+    let f : Forest := { roots := [.node 0 (.element 2) [.node 1 (.text ['w']) [], .node 2 (.text ['x']) [],
+        .node 3 (.element 3) [], .node 4 (.text ['y']) [], .node 5 (.text ['z']) []], .node 6 (.text ['q']) []],
+                        next := 7, consolidation := true, everOff := true }
+    f.inv = true ∧
+      (f.remove 3).1.content = [.node (.element 2) [.node (.text ['w']) [], .node (.text ['x', 'y']) [],
+        .node (.text ['z']) []], .node (.text ['q']) []] ∧
+      (f.remove 3).1 = specRemoveP 3 f ∧ (f.remove 3).1 ≠ specRemove Keep.earlier 3 f ∧
+      (f.insertAfter 1 6).2 = .ok ∧ (f.insertAfter 1 6).1 = specMoveP (.after 1) 6 f ∧
+      (f.prepend 0 6).2 = .ok ∧ (f.prepend 0 6).1 = specMoveP (.firstNormalChildOf 0) 6 f ∧
+      (f.append 0 6).2 = .ok ∧ selfMerge f (.lastChildOf 0) 6 = false ∧
+      (f.insertBefore 3 6).2 = .ok ∧ selfMerge f (.before 3) 6 = false := by
+  decide
 
 /-- `<e>abcd</e>` as FOUR adjacent text nodes (consolidation was off when they were appended, and is
     on again). -/
@@ -640,5 +710,22 @@ theorem C05_selfmerge_loses_text_witness :
      (g.append 0 2).2 = .ok ∧ (g.append 0 2).1.content = [.node (.element 2) [.node (.text ['a', 'c']) []]] ∧
      selfMerge g (.lastChildOf 0) 2 = true) := by
   decide
+
+/-- `<e>abc</e>` as three adjacent text nodes. -/
+def selfMergeWitness2 : Forest :=
+  { roots := [.node 0 (.element 2) [.node 1 (.text ['a']) [], .node 2 (.text ['b']) [],
+      .node 3 (.text ['c']) []]], next := 4, consolidation := true, everOff := true }
+
+/-- The full-strength statements are false of the code. -/
+theorem C05_pair_statements_false : ¬ C05_pair_appendStatement ∧ ¬ C05_pair_insertBeforeStatement := by
+  constructor
+  · intro h
+    have := h selfMergeWitness2 0 2 ((Forest.inv_iff _).1 (by decide)) (by decide)
+    revert this
+    decide
+  · intro h
+    have := h selfMergeWitness 4 2 ((Forest.inv_iff _).1 (by decide)) (by decide)
+    revert this
+    decide
 
 end XotModel.Props
